@@ -511,8 +511,10 @@ def _main_parser_registers_subgroups(tree):
     raise Unrecognised("DataclassWrapper.add_arguments: treatment of subgroup fields")
 
 
-def _choice_options(tree):
-    """field_wrapper.py FieldWrapper.get_arg_options: a choice (subgroup) field gets type=str, choices=<keys>, required, default"""
+def _choice_options(tree, fields_tree):
+    """How the table's keys become argparse `choices` of the subgroup option: helpers/fields.py choice() hands `choices=` to field(),
+    which stores every extra keyword under metadata['custom_args']; FieldWrapper.arg_options lets these custom options overwrite
+    the generated ones (get_arg_options: type=str, choices, required, default) - so the custom route is the one that decides."""
     fn = find_def(tree, "get_arg_options", cls="FieldWrapper")
     body = clean(fn.body)
     texts = [unparse(x) for x in body]
@@ -530,7 +532,7 @@ def _choice_options(tree):
                "if utils.is_list(self.type):\n    _arg_options['nargs'] = argparse.ZERO_OR_MORE", "_arg_options.pop('metavar', None)"}
     if set(arm) - allowed or "item_type = str" not in arm or "_arg_options['type'] = item_type" not in arm or "choices = self.choices" not in arm:
         raise Unrecognised(f"get_arg_options: choice arm {arm}")
-    validates = "_arg_options['choices'] = choices" in arm
+    generated = "_arg_options['choices'] = choices" in arm      # same value as the custom option; overwritten by it
     # nothing after the chain may drop the choices again
     after = texts[body.index(chains[0]) + 1:]
     if any("choices" in t for t in after):
@@ -542,7 +544,33 @@ def _choice_options(tree):
     ic = unparse(props["is_choice"]) if "is_choice" in props else ""
     if "return self.choices is not None" not in ic:
         raise Unrecognised("FieldWrapper.is_choice")
-    return validates
+    if "if 'choices' in self.custom_arg_options:\n        return self.custom_arg_options['choices']" not in ch:
+        raise Unrecognised("FieldWrapper.choices: custom choices first")
+    ao = unparse(props["arg_options"]) if "arg_options" in props else ""
+    for frag in ("options = self.get_arg_options()", "options.update(self.custom_arg_options)"):
+        if frag not in ao:
+            raise Unrecognised(f"FieldWrapper.arg_options: `{frag}`")
+    if ao.index("options = self.get_arg_options()") > ao.index("options.update(self.custom_arg_options)"):
+        raise Unrecognised("FieldWrapper.arg_options: custom options no longer overwrite the generated ones")
+    if "return self.field.metadata.get('custom_args', {})" not in unparse(props.get("custom_arg_options", ast.Pass())):
+        raise Unrecognised("FieldWrapper.custom_arg_options")
+    fld = find_def(fields_tree, "field")
+    if fld.args.kwarg is None or fld.args.kwarg.arg != "custom_argparse_args" or \
+            "if custom_argparse_args:\n        _metadata.update({'custom_args': custom_argparse_args})" not in unparse(fld):
+        raise Unrecognised("fields.field(): extra keywords are stored under metadata['custom_args']")
+    ch_fn = find_def(fields_tree, "choice")
+    ret = clean(ch_fn.body)[-1]
+    if not (isinstance(ret, ast.Return) and isinstance(ret.value, ast.Call) and unparse(ret.value.func) == "field"):
+        raise Unrecognised("fields.choice(): returned field")
+    kws = {k.arg: unparse(k.value) for k in ret.value.keywords}
+    if kws.get("default") != "default" or None not in kws or set(kws) - {"default", "choices", None}:
+        raise Unrecognised(f"fields.choice(): keywords of the returned field {kws}")
+    if "choices" in kws and kws["choices"] != "choices":
+        raise Unrecognised("fields.choice(): choices handed on as something else")
+    custom = "choices" in kws
+    if not custom and generated:
+        raise Unrecognised("choices only on the generated route: FieldWrapper.is_choice would no longer hold for a subgroup field")
+    return custom
 
 
 def _setup_sees_argv(tree):
@@ -601,7 +629,7 @@ def emit(repo: str) -> str:
     fwd_fn, fwd_default = _add_arguments_forwarding(parsing)
     bottom_up = _instantiation_order(parsing)
     main_has_sg = _main_parser_registers_subgroups(dw)
-    validates = _choice_options(fw)
+    validates = _choice_options(fw, parse(repo, "simple_parsing/helpers/fields.py"))
     sees_argv = _setup_sees_argv(parsing)
     args = ("sub_abbrev_gen main_abbrev_gen partial_kw_gen inst_default_gen preset_wins_gen loop_breaks_gen report_ns_gen "
             "validates_gen main_registers_subgroup_options_gen setup_sees_argv_gen instantiates_bottom_up_gen")
@@ -621,7 +649,7 @@ def emit(repo: str) -> str:
         "Definition preset_wins_gen : bool := subgroup_field_takes_instance_default_gen && field_default_preset_first_gen && round_asserts_default_gen.\n"
         f"Definition loop_breaks_gen : bool := {cb(r['loop_breaks'])}.        (* `if not unresolved_subgroups: break` ends the itertools.count() loop *)\n"
         f"Definition report_ns_gen : bool := {cb(report_ns)}.          (* namespace.subgroups[dest] = getattr(parsed_args, dest); delattr *)\n"
-        f"Definition validates_gen : bool := {cb(validates)}.          (* get_arg_options: _arg_options['choices'] = choices for a choice field *)\n"
+        f"Definition validates_gen : bool := {cb(validates)}.          (* fields.choice() -> field(choices=...) -> custom_args overwrite the generated options: argparse validates every key *)\n"
         f"Definition main_registers_subgroup_options_gen : bool := {cb(main_has_sg)}.   (* DataclassWrapper.add_arguments does not skip subgroup fields *)\n"
         f"Definition setup_sees_argv_gen : bool := {cb(sees_argv)}.     (* parse_known_args -> _preprocessing -> _resolve_subgroups(args=args, namespace=namespace) *)\n"
         f"Definition instantiates_bottom_up_gen : bool := {cb(bottom_up)}.   (* sorted(wrappers, key=nesting_level, reverse=True); child value into the parent's arguments *)\n"
